@@ -29,6 +29,8 @@ def gen_members(rng, maxn=8):
         mode = rng.choice([None, 0o100644, 0o100755, 0o100600, 0o104755, 0o100000 | rng.randrange(0, 0o10000), 0o120777])
         special = rng.random() < 0.25
         members.append({"name": name, "size": rng.choice([0, 1, 9, 10, 11, 100, 1000, 5000]), "mode": mode, "deflate": rng.random() < 0.5,
+                        # "made by" system of members without a unix mode: DOS (the zip reader derives default bits) or NTFS (no mode at all)
+                        "system": rng.choice([0, 10]),
                         # stored wall-clock times that do not exist, or exist twice, in some local zone (zip times carry no zone)
                         "date": rng.choice([[2021, 3, 28, 2, 30, 0], [2021, 10, 31, 2, 30, 0], [2021, 3, 14, 2, 30, 0], [2021, 11, 7, 1, 30, 0], [2020, 2, 29, 23, 59, 58]]) if special else [rng.choice([1980, 1999, 2020, 2024, 2037]), rng.choice([1, 3, 6, 11, 12]), rng.choice([1, 15, 28, 30]), rng.randrange(0, 24), rng.randrange(0, 60), rng.randrange(0, 30) * 2]})
     if rng.random() < 0.4 and "sub/" not in names:
@@ -163,8 +165,16 @@ class Check:
                     # the mode string is asserted when the archive stores a unix mode *with* file-type bits
                     mode = statmod.filemode(m["mode"]) if m.get("mode") is not None and (m["mode"] & 0o170000) else None
                     lz = lambda t_: t_.encode("utf-8", "surrogateescape").decode("utf-8", "replace").encode("utf-8")  # printed lossily
+                    # permission booleans: from the stored unix mode; a member without any stored mode has none of them
+                    # (never the containing archive's). Directory members without a unix mode get DOS-derived bits: not asserted.
+                    if m.get("mode") is not None:
+                        pb = [b"true" if m["mode"] & bit else b"false" for bit in (0o100, 0o004, 0o4000)]
+                    elif not isdir and m.get("system", 0) == 10:
+                        pb = [b"false", b"false", b"false"]
+                    else:
+                        pb = [None, None, None]
                     out.append((lz("[%s] %s" % (apath, m["name"])), lz("[%s] %s" % (apath.rsplit("/", 1)[-1], m["name"])),
-                                str(size).encode(), b"true" if isdir else b"false", ("%04d-%02d-%02d %02d:%02d:%02d" % tuple(d)).encode(), mode.encode() if mode else None))
+                                str(size).encode(), b"true" if isdir else b"false", ("%04d-%02d-%02d %02d:%02d:%02d" % tuple(d)).encode(), mode.encode() if mode else None, pb[0], pb[1], pb[2]))
         return out
 
     # ------------------------------------------------------------------ evaluation
@@ -191,7 +201,7 @@ class Check:
 
     def eval_list(self, case, ctx, nm):
         world, top = case["world"], case["top"]
-        cols = ["path", "name", "size", "is_dir", "modified", "mode"]
+        cols = ["path", "name", "size", "is_dir", "modified", "mode", "user_exec", "other_read", "suid"]
         fromc = " from %s %s" % (top, case["mode"])
         arc = " " + case["arcword"]
         var = case["variant"]
@@ -269,7 +279,7 @@ class Check:
             bypath = {m[0]: m for m in members}
             for r in member1:
                 m = bypath[r[0]]
-                for ci, cname in ((1, "name"), (2, "size"), (3, "is_dir"), (4, "modified"), (5, "mode")):
+                for ci, cname in ((1, "name"), (2, "size"), (3, "is_dir"), (4, "modified"), (5, "mode"), (6, "user_exec"), (7, "other_read"), (8, "suid")):
                     if m[ci] is None:
                         continue
                     if r[ci] != m[ci]:
